@@ -24,7 +24,7 @@ func init() {
 	core.Register(&core.Check{
 		ID:    "C41",
 		Level: "exploration",
-		Rule: "commands and their stdin/stdout capability are discovered from the real binary's help texts ('use - to read from stdin' / 'use - to write to stdout'); for every command template (the C04 table plus listing/JSON commands and the input-less forms of create/import/merge) the stream variants {stdin->'-', stdin->omitted, file->'-', stdin->file} that the help documents are run against the file->file reference, x configuration directory {fresh, existing}; oracle: stream variant exits 0 iff the file variant does, stdout is exactly one PDF (starts %PDF-, ends %%EOF, no other text) whose canonical object graph (catalog + info, dates/ids skipped) equals the file variant's, JSON commands print exactly one JSON value equal to the file variant's (source name normalised); invalid inputs {garbage, empty, missing file, missing password} x every variant must exit non-zero; " +
+		Rule: "commands and their stdin/stdout capability are discovered from the real binary's help texts ('use - to read from stdin' / 'use - to write to stdout'); for every command template (the C04 table plus listing/JSON commands and the input-less forms of create/import/merge) the stream variants {stdin->'-', stdin->omitted, file->'-', stdin->file} that the help documents are run against the file->file reference, x configuration directory {fresh, existing}; oracle: stream variant exits 0 iff the file variant does, stdout is exactly one PDF (starts %PDF-, ends %%EOF, no other text) whose canonical object graph (catalog + info, dates/ids skipped) equals the file variant's, JSON commands print exactly one JSON value equal to the file variant's (source name normalised); invalid inputs {garbage, empty, missing file, missing password} x every variant must exit non-zero; multi-input commands (info, info --json, validate, merge) x member order x one non-PDF member supplied as a file or on stdin must exit non-zero; " +
 			"non-trivial = a stream variant compared with its file reference, or an invalid-input run",
 		Assume: []string{"the binary is rebuilt from /repo's working tree by bin/build before the check runs"},
 		Run:    runC41,
@@ -299,6 +299,58 @@ func runC41(r *core.R) {
 			}
 		}
 	}
+	// commands taking several inputs: one failing member (file or stdin) must make the whole command fail
+	type multi struct {
+		name  string
+		args  []string // GOOD, BAD placeholders
+		stdin bool     // BAD is "-" (garbage on stdin)
+	}
+	var multis []multi
+	for _, base := range [][]string{{"info"}, {"info", "--json"}, {"validate"}, {"merge", "out.pdf"}} {
+		for _, order := range [][]string{{"GOOD", "BAD"}, {"BAD", "GOOD"}, {"GOOD", "GOOD", "BAD"}} {
+			for _, viaStdin := range []bool{false, true} {
+				if viaStdin && !cap[base[0]].stdin {
+					continue
+				}
+				multis = append(multis, multi{strings.Join(base, " ") + " " + strings.Join(order, " "), append(append([]string{}, base...), order...), viaStdin})
+			}
+		}
+	}
+	core.ParFor(len(multis), func(mi int) {
+		m := multis[mi]
+		d := filepath.Join(base, fmt.Sprintf("m%d", mi))
+		defer os.RemoveAll(d)
+		if err := fsx.CopyTree(fixdir, d); err != nil {
+			r.HarnessError("copy: %v", err)
+			return
+		}
+		garbage := []byte("hello, this is not a PDF at all\n")
+		os.WriteFile(filepath.Join(d, "bad.pdf"), garbage, 0o644)
+		var args []string
+		var stdin []byte
+		for _, a := range m.args {
+			switch a {
+			case "GOOD":
+				args = append(args, "in.pdf")
+			case "BAD":
+				if m.stdin {
+					args = append(args, "-")
+					stdin = garbage
+				} else {
+					args = append(args, "bad.pdf")
+				}
+			default:
+				args = append(args, a)
+			}
+		}
+		res := runCLI(d, stdin, args...)
+		r.Eval(1)
+		r.Nontrivial(1)
+		r.SetAdd("multi_input_cases", m.name+fmt.Sprint(" stdin=", m.stdin))
+		if res.code == 0 {
+			r.Violation("failing-member-exit-0:"+strings.Fields(m.name)[0]+fmt.Sprint(":json=", strings.Contains(m.name, "--json"), ":stdin=", m.stdin), fmt.Sprintf("pdfcpu %s (one input is not a PDF%s) exits 0; stdout starts %q", strings.Join(args, " "), map[bool]string{true: ", supplied on stdin", false: ""}[m.stdin], trimTo(string(res.stdout), 120)), map[string]any{"args": args, "bad_on_stdin": m.stdin})
+		}
+	})
 	r.Note("templates", len(ts))
 	r.Note("template_jobs", len(jobs))
 	core.ParFor(len(jobs), func(ji int) {
